@@ -179,10 +179,10 @@ Definition check_auto (c : case) : verdict := check (k_fx c) c.
     sentinel says (a regression is then an ordinary VIOLATION); the candidate repairs by sentinel *)
 Definition check_f1fixed (c : case) : verdict := check (set_F1 true (k_fx c)) c.
 
-(** /repo: the six committed repairs are in (F1 b2286d8, F2 7c3e9fc, F3 a5ef279, F4 ae6db4f, F6 06faa19,
-    F7 19923cd): those are expected whatever the sentinels say (a regression is an ordinary VIOLATION);
-    the candidate repair of C13-F9 by sentinel *)
-Definition check_repo (c : case) : verdict := check (set_F11 (fx_F11 (k_fx c)) (set_F9 (fx_F9 (k_fx c)) all_fixed)) c.
+(** /repo: all eight repairs are in (F1 b2286d8, F2 7c3e9fc, F3 a5ef279, F4 ae6db4f, F6 06faa19, F7 19923cd,
+    F9 58408fc, F11 9fe653a): the fully repaired variant is expected whatever the sentinels say (a
+    regression is an ordinary VIOLATION) *)
+Definition check_repo (c : case) : verdict := check repo_now c.
 
 (* short constructors for the generated case files *)
 Definition lrq m t h p q hs b pe pk qp :=
@@ -205,9 +205,10 @@ Definition cs fx L r er ep ct db de d p e :=
     directly and, described by X-Forwarded-Method/-Proto/-Host/-Uri from a trusted proxy, to a decision
     service with trusted_proxies; both echo method and URL parts through the same rule.
     [v_corr]: the model ([view_direct], [view_tp]) predicts both echoes; [v_prop]: the two echoes are
-    equal; guard 10 = C13-F10 (the query is not its own re-encoding). *)
+    equal; guard 10 = C13-F10 (the query is not its own re-encoding).  [t_fixed_F10]: the driver's
+    sentinel found the candidate repair fixes/C13-F10.diff in the tree. *)
 Record tobs := { to_status : Z; to_parts : string * string * string * string * string }.
-Record tcase := { t_L : lreq; t_direct : tobs; t_tp : tobs }.
+Record tcase := { t_fixed_F10 : bool; t_L : lreq; t_direct : tobs; t_tp : tobs }.
 
 Definition parts_eqb (a b : string * string * string * string * string) : bool :=
   let '(a1, a2, a3, a4, a5) := a in let '(b1, b2, b3, b4, b5) := b in
@@ -219,9 +220,9 @@ Definition check_tp (c : tcase) : verdict :=
   let L := t_L c in
   {| v_corr := wf_lreqb L && nonempty (l_method L) &&
                tobs_eqb {| to_status := 0; to_parts := url_parts (view_direct L) |} (t_direct c) &&
-               tobs_eqb {| to_status := 0; to_parts := url_parts (view_tp L) |} (t_tp c);
+               tobs_eqb {| to_status := 0; to_parts := url_parts (view_tp (t_fixed_F10 c) L) |} (t_tp c);
      v_prop := tobs_eqb (t_direct c) (t_tp c);
-     v_guards := guards [(10%Z, g_F10 L)] |}.
+     v_guards := guards [(10%Z, negb (t_fixed_F10 c) && g_F10 L)] |}.
 
 Definition tob s m sc h rp q := {| to_status := s; to_parts := (m, sc, h, rp, q) |}.
-Definition tcs L d t := {| t_L := L; t_direct := d; t_tp := t |}.
+Definition tcs fx L d t := {| t_fixed_F10 := fx; t_L := L; t_direct := d; t_tp := t |}.
